@@ -202,10 +202,14 @@ def run_case(seed, tier, rec, st):
                          f"@dataclass\nclass Leafy(Page[{carg}]):\n    extra: int = 0\n"
                          # a generic dataclass holding ANOTHER specialisation of a generic that shares the TypeVar
                          f"@dataclass\nclass Outer(Generic[T]):\n    inner: Envelope[{parg}]\n    v: T\n    vs: List[T] = field(default_factory=list)\n"
-                         f"@dataclass\nclass Top(DataClassDictMixin):\n    o: Outer[{carg}]\n")
+                         f"@dataclass\nclass Top(DataClassDictMixin):\n    o: Outer[{carg}]\n"
+                         # generic TypedDict / NamedTuple: optional keys stay optional, type variables inside member types are resolved
+                         "class TDg(TypedDict, Generic[T]):\n    item: T\n    items: NotRequired[List[T]]\n    note: NotRequired[str]\n"
+                         "class NTg(NamedTuple, Generic[T]):\n    x: T\n    xs: List[T]\n    o: Optional[T] = None\n"
+                         f"@dataclass\nclass Holder2(DataClassDictMixin):\n    t: TDg[{carg}]\n    n: NTg[{carg}]\n    ts: List[TDg[{parg}]] = field(default_factory=list)\n")
             m = fam.module
             pv, cv = eval(pval, m.__dict__), eval(cval, m.__dict__)
-            which = rng.choice(["Page", "Book", "Leafy", "Outer", "Top"])
+            which = rng.choice(["Page", "Book", "Leafy", "Outer", "Top", "Holder2"])
             facts = {"kind": "generic-inheritance", "same_typevar": same_tv, "parent_arg": parg, "child_arg": carg, "root": which}
             page = lambda cls=None: (cls or m.Page)([pv], {"k": pv}, pv, [cv, cv], cv)
             if which == "Page":
@@ -214,6 +218,9 @@ def run_case(seed, tier, rec, st):
                 values = [page()]
             elif which == "Book":
                 tsrc, T, values = "Book", m.Book, [m.Book(page(), [page()])]
+            elif which == "Holder2":
+                tsrc, T = "Holder2", m.Holder2
+                values = [m.Holder2({"item": cv}, m.NTg(cv, [cv]), [{"item": pv, "note": "n"}]), m.Holder2({"item": cv, "items": [cv, cv]}, m.NTg(cv, [], cv), [{"item": pv, "items": []}])]
             elif which in ("Outer", "Top"):
                 outer = m.Outer(m.Envelope([pv], {"k": pv}, pv), cv, [cv])
                 if which == "Outer":
